@@ -343,7 +343,8 @@ PROPS = {
                 "that had been finished; one evaluation = one line: a momentum inserted (the model first looks up the producer of its "
                 "slot, then runs the two InsertMomentum listeners), k momentums deleted, EpochStats(T) of every epoch up to one past the "
                 "frontier (answer classified on the real node as served / recomputed / future by what happened to the stored point; the "
-                "model says served iff the stored end hash is the hash the current chain has at the end of the epoch; compared: the "
+                "model says served iff the stored end hash is the hash the current chain has at the end of the epoch and the epoch is "
+                "finished (b4e9eef; the gap scenario is the recurrence test of finding FX1); compared: the "
                 "number of period points merged = sum ExpectedNum / NodeCount, and FactualNum per pillar), the complete content of the "
                 "consensus database after every group of events (every stored period and epoch point: tick, end hash, merged periods, "
                 "momentums per pillar; the set of proof hashes election results are stored for) against the model's caches, and "
@@ -353,11 +354,8 @@ PROPS = {
                    "hash, period and epoch points by tick with their end hash, the two never-rolled-back counters of points) and the "
                    "account pool's lazily built managers under RollbackTo are covered by Props/C06Node.lean over Model/NodeCache.lean: "
                    "for an ARBITRARY specification of what an election / a period point / a compound point is as a function of the chain, "
-                   "under the explicit hash-chaining hypothesis ChainWF (a hash names one chain). What is NOT a theorem there: the epoch "
-                   "reader is proved trace-free for epochs that are finished on the current chain or have not started (every epoch a "
-                   "reward is paid for) and for unfinished ones only when no stored point carries the current end hash - the remaining "
-                   "case is real (finding FX1, witness epoch_unfinished_after_rollback_keeps_trace, reproduced on a real node by the gap "
-                   "scenario); the election, ComputePillarDelegations, weights and ExpectedNum are oracle values (the driver's instance "
+                   "under the explicit hash-chaining hypothesis ChainWF (a hash names one chain). What is NOT a theorem there: "
+                   "the election, ComputePillarDelegations, weights and ExpectedNum are oracle values (the driver's instance "
                    "counts merged periods and momentums per pillar); the LRU in front of the consensus database is not modelled (2016 "
                    "entries, never evicted in the streams; its persistence round trips are C05 monitors); GetMomentumBeforeTime = cut "
                    "needs increasing timestamps (C05); in the pool model a manager is the chain it was built from plus the acknowledged "
